@@ -74,6 +74,7 @@ C1_CLASSES = {
     "rotated-insertion": "permuted insertion order, nodelist omitted",
     "rotated-nodelist": "explicit nodelist in another order than G.nodes()",
     "direct": "SIR_pair_based called with 0/1 arrays Y0, X0 and nodelist",
+    "attr-weight": "sorted insertion order, the edge attribute holding the transmission weight is called 'weight' (networkx's default name)",
 }
 
 
@@ -89,6 +90,10 @@ def c1_call(n, key, seeds, rec, cls, weighted):
     kw = dict(tmin=0, tmax=TMAX, tcount=TCOUNT)
     if weighted:
         kw.update(transmission_weight="w", recovery_weight="g")
+    if cls == "attr-weight" and weighted:
+        for (a, b) in G.edges():
+            G[a][b]["weight"] = G[a][b].pop("w")
+        kw["transmission_weight"] = "weight"
     nodelist = None
     if cls in ("nodelist-sorted", "direct"):
         nodelist = list(range(1, n + 1))
